@@ -260,14 +260,34 @@ def write_replay(prop, spec, violation, fingerprint, name=None):
         "message": violation.get("message"),
     }
     doc["fingerprint"] = fingerprint
+    doc["pythonhashseed"] = os.environ.get("PYTHONHASHSEED", "0")
     with open(path, "w", encoding="utf-8") as fobj:
         json.dump(doc, fobj, indent=1, sort_keys=True)
     return path
 
 
 def replay_in_fresh_process(prop, path, hashseed="4242"):
-    """Replays a file in a fresh interpreter under another PYTHONHASHSEED; returns its JSON report."""
-    env = dict(os.environ, PYTHONHASHSEED=hashseed, VERIF_NO_REEXEC="1")
+    """Replays a file in a fresh interpreter, first under another PYTHONHASHSEED (the usual case: the
+    violation does not depend on it), then, if that does not reproduce it, under the hash seed
+    recorded in the file (a violation that depends on the interpreter's hash seed is still exactly
+    repeatable: one hash seed is one execution)."""
+    report = _replay_once(prop, path, hashseed, keep=True)
+    if report.get("reproduced") and report.get("fingerprint_matches"):
+        report["hash_seed_dependent"] = False
+        return report
+    report = _replay_once(prop, path, None, keep=False)
+    report["hash_seed_dependent"] = True
+    return report
+
+
+def _replay_once(prop, path, hashseed, keep):
+    env = dict(os.environ, VERIF_NO_REEXEC="1")
+    if hashseed is not None:
+        env["PYTHONHASHSEED"] = hashseed
+    if keep:
+        env["VERIF_REPLAY_KEEP_HASHSEED"] = "1"
+    else:
+        env.pop("VERIF_REPLAY_KEEP_HASHSEED", None)
     proc = subprocess.run(
         [sys.executable, os.path.join(VERIF_DIR, "check.py"), prop, "--replay", path, "--json"],
         capture_output=True,
